@@ -54,6 +54,57 @@ def run_c08(tier, seed):
             "summary": f"L-gc scripts={c['scripts']} disagreements={c['model_vs_impl_disagreements']} truth_failures={c['impl_vs_ground_truth_failures']}"}
 
 
+def run_c16(tier, seed):
+    import re
+    scripts, meta, res, wall = c_gc.check_c16(tier, seed)
+    # implementation-only predicate: linear bound and doubling ratio on the real counters
+    text = "".join("\n".join(s) + "\n---\n" for s in scripts)
+    try:
+        rc, hout, herr = run([HBIN, "gc"], stdin=text.encode(), timeout=600 if tier == "quick" else 3000)
+    except Exception as e:
+        rc, hout, herr = 124, "", "timeout"
+    viols, table, bad = [], [], []
+    groups = hout.split("---\n")
+    per = {}
+    for k, (kind, ch, kk, n, e) in enumerate(meta):
+        lines = groups[k].strip().split("\n") if k < len(groups) else []
+        cl = [l for l in lines if l.startswith("n=")]
+        if not cl:
+            bad.append((k, "no result (panic, hang or crash): " + (lines[-1] if lines else herr[-200:])))
+            continue
+        m = re.search(r"freed=(\d+) R:(\d+) T:(\d+) C:(\d+)/(\d+)", cl[0])
+        freed, tc, ec = int(m.group(1)), int(m.group(4)), int(m.group(5))
+        table.append({"family": kind, "roots": ch, "k": kk, "objects": n, "edges": e, "trace_calls": tc, "edge_callbacks": ec, "freed": freed})
+        if tc > 30 * (2 * n) + 30 or ec > 30 * e + 30:
+            bad.append((k, f"cost not linear: {tc} trace calls / {ec} callbacks for {n} objects, {e} edges"))
+        per.setdefault((kind, ch), []).append((kk, (tc + ec) / float(n + e + 1)))
+    for key, pts in per.items():
+        pts.sort()
+        for (k1, c1), (k2, c2) in zip(pts, pts[1:]):
+            if k1 >= 8 and k2 == 2 * k1 and c2 > 1.25 * c1:
+                bad.append((next(i for i, mm in enumerate(meta) if (mm[0], mm[1], mm[2]) == (key[0], key[1], k2)),
+                            f"cost per object+edge grows with the size: {key} k={k1}: {c1:.2f} -> k={k2}: {c2:.2f}"))
+    if bad:
+        k, why = bad[0]
+        viols.append({"what": "collection cost/termination violated on the real collector: " + why, "found_input": True,
+                      "replay_text": f"# {why}\n# family {meta[k][:3]}\n" + "\n".join(scripts[k]) + "\n", "signature": f"{meta[k][0]}/{meta[k][1]}"})
+    elif res["disagree"]:
+        k, j, h, m = res["disagree"][0]
+        viols.append({"what": f"model M_gc and gc_node.rs disagree on trace-call counters ({len(res['disagree'])} family scripts); measured cost still within the linear bound",
+                      "found_input": False,
+                      "replay_text": "correspondence L-gc with exact trace/edge counters (Model/Gc.lean vs src/impl_/gc_node.rs) no longer checks; cost theorems of Props/C16.lean no longer apply to the code\n"
+                                     f"# family {meta[k][:3] if k >= 0 else '?'}; first disagreement at line {j}: impl `{h}` model `{m}`\n" + ("\n".join(scripts[k]) if k >= 0 else "") + "\n",
+                      "signature": None})
+    big = max(table, key=lambda r: r["objects"]) if table else {}
+    cov = {"evaluations": len(scripts), "distinct_nontrivial": len({(m[0], m[1], m[2]) for m in meta if m[2] >= 2}),
+           "rule": "graph families (ladder of diamonds, cyclic ladder, fan-out, fan-in, chain, ring, random shared DAG) x candidate-root choices (all dropped / top first / keep bottom / keep top) x sizes; non-trivial = size >= 2; each built on the real GcCtx and on the model, trace()/callback counters compared exactly after each collection",
+           "samples": [table[0], big] if table else [],
+           "correspondence": {"level": "L-gc (brief observations: counters exact)", "scripts": len(scripts), "model_vs_impl_disagreements": len(res["disagree"])},
+           "cost_table_excerpt": [r for r in table if r["family"] in ("ladder", "shared") and r["roots"] == "all"][-6:],
+           "max_objects": big.get("objects"), "bound_checked": "trace_calls <= 60*objects+30, callbacks <= 30*edges+30, (calls+callbacks)/(objects+edges) grows by <= 25% per doubling"}
+    return {"coverage": cov, "violations": viols, "summary": f"families={len(scripts)} max_objects={big.get('objects')} disagreements={len(res['disagree'])}"}
+
+
 HOOK_COMMITS = ["fdc44d7"]
 NOT_CLAIMED = {}
 
@@ -64,4 +115,10 @@ PROPS = {
             "level_text": "Theorems about M_gc (a line-by-line executable model of gc_node.rs) for every object graph and history; the model is tied to the code by comparing the full hidden collector state after every operation of random (quick) and exhaustively enumerated (thorough) histories, and the implementation is separately checked against a reachability ground truth to find concrete failing histories.",
             "level_note": "Trusted: Lean kernel (+propext, Classical.choice, Quot.sound), the hand-written model, the harness with synthetic objects (destructor releases its out-edges), hook accessors. Bounded only in the tie: <=6 objects/<=40 ops random, <=3 objects length 7 and <=2 objects length 9 exhaustive.",
             "design_ref": "DESIGN.md section 6, C08"},
+    "C16": {"modules": ["SodiumVerif.Props.C16"], "audit_import": "SodiumVerif.Props.C16", "theorems": c_gc.C16_THEOREMS,
+            "run": run_c16, "replay": gc_replay,
+            "technique": "Lean 4 cost/termination theorems on M_gc with trace-call counters + exact counter correspondence with the hooked collector on graph families",
+            "level_text": "Termination (fuel never exhausted) and a linear bound on trace() calls per pass are theorems about M_gc for every graph; the model's counters must equal the real collector's hook counters exactly on ladders of diamonds, fans, chains, rings and random shared graphs at doubling sizes, and the implementation's own counters are checked against the linear bound and a doubling-ratio test.",
+            "level_note": "Cost is counted in trace() invocations and tracer callbacks, never wall-clock. Trusted as for C08; the hook counters in GcNode::trace.",
+            "design_ref": "DESIGN.md section 6, C16"},
 }
